@@ -17,16 +17,36 @@ type raceCtx struct {
 	mu    sync.Mutex
 	armed bool
 	left  int // lookups that still see the session; <0: never deleted
+	// closer, when set, is what makes the session disappear: the connection's real Close (everything Close does to the
+	// session happens at that point, not only its removal from the context)
+	closer func()
 }
 
 func (r *raceCtx) GetSessionForConnection(cn net.Conn) hap.Session {
 	r.mu.Lock()
 	defer r.mu.Unlock()
+	closeNow := func() {
+		r.armed = false // Close looks the session up itself
+		r.mu.Unlock()
+		r.closer()
+		r.mu.Lock()
+	}
 	if r.armed && r.left == 0 {
-		r.Context.DeleteSessionForConnection(cn)
+		if r.closer != nil {
+			closeNow()
+		} else {
+			r.Context.DeleteSessionForConnection(cn)
+		}
 	}
 	if r.armed && r.left > 0 {
 		r.left--
+		if r.left == 0 && r.closer != nil {
+			// the connection is closed right after this lookup has returned the session: the caller holds a session
+			// whose connection is gone (with one lookup per operation there is no later lookup to notice it)
+			sess := r.Context.GetSessionForConnection(cn)
+			closeNow()
+			return sess
+		}
 	}
 	return r.Context.GetSessionForConnection(cn)
 }
@@ -37,8 +57,12 @@ func (r *raceCtx) GetSessionForConnection(cn net.Conn) hap.Session {
 func c08CloseRace(c *Ctx) {
 	for _, verified := range []bool{true, false} {
 		for d := -1; d <= 4; d++ {
-			for _, op := range []string{"write", "read"} {
+			for _, op := range []string{"write", "read", "write.close", "read.close"} {
 				id := fmt.Sprintf("close-race#%s.v%v.d%d", op, verified, d)
+				realClose := len(op) > 5
+				if realClose {
+					op = op[:len(op)-6]
+				}
 				if c.Skip(id) {
 					continue
 				}
@@ -56,6 +80,9 @@ func c08CloseRace(c *Ctx) {
 				}
 				payload := []byte("EVENT/1.0 200 OK\r\nContent-Type: application/hap+json\r\nContent-Length: 49\r\n\r\n{\"characteristics\":[{\"aid\":1,\"iid\":10,\"value\":" + fmt.Sprint(r.Intn(90)+10) + "}]}")
 				request := []byte("GET /accessories HTTP/1.1\r\nHost: x\r\n\r\n")
+				if realClose {
+					ctx.closer = func() { conn.Close() }
+				}
 				ctx.armed = true
 				out := "?"
 				var detail string
@@ -107,7 +134,7 @@ func c08CloseRace(c *Ctx) {
 					out, detail = "panic", msg
 				}
 				ctx.armed = false
-				in := map[string]interface{}{"operation": op, "verified_connection": verified, "session_lookups_before_the_session_is_deleted": d}
+				in := map[string]interface{}{"operation": op, "verified_connection": verified, "session_lookups_before_the_session_is_deleted": d, "deleted_by_the_connections_Close": realClose}
 				if out == "panic" {
 					c.Violate("closing a connection while it is "+map[string]string{"write": "written to (notification from the application's goroutine)", "read": "read"}[op]+" panics", id, in, "sealed or refused", trunc(detail, 300))
 				}
@@ -125,6 +152,9 @@ func c08CloseRace(c *Ctx) {
 				model := c.Model1(fmt.Sprintf("sess %s 1 %s %s", op, v, ds))
 				if op == "read" && !verified && model == "raw" && out == "refused" {
 					// an unverified connection refuses what is not a well-formed request line; the bytes here are a request, so this does not happen
+				}
+				if realClose && op == "read" && model == "raw" && out == "refused" {
+					model = "refused" // Close also closes the socket: nothing can be read from it any more
 				}
 				c.Same("close-race", id, in, model, out)
 				c.Count(id, d >= 0, "stream:close-race", "close-race:"+op+":"+out)
